@@ -48,7 +48,7 @@ NC == Len(T.cl)
 CompOf(call) == CASE call.op \in EditOps -> call.g
                   [] call.op = "AddSchema" -> "schemas"
                   [] call.op \in {"Submit", "GetJob"} -> "jobs"
-                  [] OTHER -> "static"
+                  [] OTHER -> "read"      \* no object: reads are judged by Provenance
 \* index of the first call of client c after index p that concerns object cm
 NextRel(t, cm, c, p) ==
   LET Rel == {k \in (p + 1)..Len(t.cl[c]) : CompOf(t.cl[c][k].call) = cm}
